@@ -200,9 +200,15 @@ def _file_mono_case(case):
     from .. import scan_common as sc
     from ..impl import Rule, err_kind, get_evaluable_architecture, graph_snapshot
 
-    tree, tree2, mp, lim, seed = case
+    tree, tree2, mp, lim, seed = case[:5]
+    ext = case[5] if len(case) > 5 else None
     rng = _random.Random(seed)
     kw = {} if lim is None else {"level_limit": lim}
+    if ext is not None:
+        # external libraries included (with external exclusion patterns): an added import may add a MODULE, it still removes nothing
+        kw["exclude_external_libraries"] = False
+        if ext:
+            kw["regex_external_exclusions"] = tuple(ext)
     out = {"rules": []}
 
     def scan(t):
@@ -218,7 +224,7 @@ def _file_mono_case(case):
     if ev1 is None or ev2 is None:
         out["scan"] = (g1 if ev1 is None else "ok", g2 if ev2 is None else "ok")
         return out
-    out["nodes_equal"] = g1[0] == g2[0] and g1[2] == g2[2]
+    out["nodes_equal"] = (g1[0] == g2[0] and g1[2] == g2[2]) if ext is None else (set(g1[0]) <= set(g2[0]) and set(g1[2]) <= set(g2[2]))
     out["lost"] = sorted(set(g1[1]) - set(g2[1]))
     out["gained"] = sorted(set(g2[1]) - set(g1[1]))
     nodes = list(g1[0])
@@ -294,9 +300,23 @@ def file_monotone_stream(ctx, stream, n):
         dirs = sorted(p for p, v in tree.items() if v is None)
         mp = "proj" if rng.random() < 0.7 else rng.choice(dirs)
         lim = rng.choice([None, None, 1, 1, 2, 3])
+        if rng.random() < 0.3:
+            # externals included, no level limit; patterns that match a sub module of a library only, a whole library, or nothing.
+            # The tree already imports a library and one of its packages; the added statement imports a sub module of it.
+            pats = rng.choice([[], [r"ext\.lib\.x"], [r"os\.path"], [r"ext\.lib$", r"deep\.er"], [r"ab"]])
+            g = rng.choice(files)
+            t1 = dict(tree)
+            t1[g] = tree[g] + "import ext.lib\nimport os\nfrom ext.lib import thing\nimport ext.lib.w\n"
+            t2 = dict(t1)
+            extra = rng.choice(["import ext.lib.x\n", "import ext.lib.x.y.z\n", "from ext.lib.x import thing\n", "import os.path\n", "import ext.lib.x as q\nimport os.path\n"])
+            h = rng.choice([g, f])
+            t2[h] = t1[h] + extra if rng.random() < 0.7 else t1[h].replace("\n", "\n" + extra, 1)
+            cases.append((t1, t2, "proj", None, rng.randrange(1 << 30), pats))
+            continue
         cases.append((tree, tree2, mp, lim, rng.randrange(1 << 30)))
     res = pmap(_file_mono_case, cases, ctx.jobs, chunk=10)
-    for (tree, tree2, mp, lim, _), out in zip(cases, res):
+    for case, out in zip(cases, res):
+        tree, tree2, mp, lim = case[:4]
         stream.evaluations += 1
         stream.count(f"limit:{lim}")
         if "scan" in out:
@@ -307,7 +327,7 @@ def file_monotone_stream(ctx, stream, n):
             continue
         bad = None
         if not out["nodes_equal"]:
-            bad = "adding an import statement (external libraries excluded) changes the modules or the hierarchy"
+            bad = "adding an import statement changes the modules or the hierarchy (external libraries excluded), or removes some (included)"
         elif out["lost"]:
             bad = f"adding an import statement removes imports from the architecture: {out['lost'][:4]}"
         if out["gained"]:
